@@ -104,6 +104,12 @@ func (u *udpHandler) Handle() error {
 		}
 		pkg := make([]byte, n)
 		copy(pkg, buffer[0:n])
+		// a datagram must hold one complete package: anything else (shorter than the header,
+		// illegal or incomplete length) would make the protocol layer slice out of range
+		if _, status := u.server.protocol.ParsePackage(pkg); status != PackageFull {
+			TLOG.Errorf("drop malformed udp package from %v, len %d", udpAddr, n)
+			continue
+		}
 		u.handleUDPAddr(udpAddr, pkg)
 	}
 }
